@@ -109,6 +109,47 @@ pub fn run(line: &str) -> String {
                 _ => panic!("kind"),
             }
         }
+        "vv" => {
+            // a value of the given width handed to toml::Value / toml::Table by serde's own primitive deserializers
+            use serde::de::IntoDeserializer;
+            type E = serde::de::value::Error;
+            fn show(direct: Result<toml::Value, E>, in_map: Result<toml::Table, E>, in_seq: Result<toml::Value, E>) -> String {
+                let d = direct.ok().map(|v| v.to_string());
+                let m = in_map.ok().map(|t| t["k"].to_string());
+                let s = in_seq.ok().map(|v| v.as_array().unwrap()[0].to_string());
+                if d == m && m == s {
+                    match d {
+                        Some(x) => format!("ok:{x}"),
+                        None => "err".into(),
+                    }
+                } else {
+                    format!("mixed:{d:?}/{m:?}/{s:?}")
+                }
+            }
+            macro_rules! vv {
+                ($t:ty) => {{
+                    let v: $t = p[2].parse().unwrap();
+                    let direct = toml::Value::deserialize(IntoDeserializer::<E>::into_deserializer(v));
+                    let map: std::collections::BTreeMap<&str, $t> = [("k", v)].into_iter().collect();
+                    let in_map = toml::Table::deserialize(IntoDeserializer::<E>::into_deserializer(map));
+                    let in_seq = toml::Value::deserialize(IntoDeserializer::<E>::into_deserializer(vec![v]));
+                    show(direct, in_map, in_seq)
+                }};
+            }
+            match p[1] {
+                "u8" => vv!(u8),
+                "i8" => vv!(i8),
+                "u16" => vv!(u16),
+                "i16" => vv!(i16),
+                "u32" => vv!(u32),
+                "i32" => vv!(i32),
+                "u64" => vv!(u64),
+                "i64" => vv!(i64),
+                "i128" => vv!(i128),
+                "u128" => vv!(u128),
+                _ => panic!("kind"),
+            }
+        }
         "de" => match p[1] {
             "u8" => de_all::<u8>(p[2]),
             "i8" => de_all::<i8>(p[2]),
